@@ -337,6 +337,17 @@ class Coin:
         return self.worth * 2
 
 
+class Tally:
+    """an object the story uses by CALLING it"""
+
+    def __init__(self):
+        self.count = 0
+
+    def __call__(self, k=1):
+        self.count += k
+        return self.count
+
+
 class Sealed:
     _fields = ("tag", "n")
 
@@ -376,13 +387,13 @@ def object_continuation_phase(chk, rng, n):
         for k in range(n):
             r = random.Random(rng.randrange(10 ** 9))
             mk = {"pack": "Pack('ann')", "card": f"Card({r.randint(1, 9)})", "coin": f"Coin('h', {r.randint(1, 9)})",
-                  "sealed": f"Sealed('t', {r.randint(0, 5)})", "wallet": f"Wallet({r.randint(0, 50)})", "inv": "Inventory(20)"}
+                  "sealed": f"Sealed('t', {r.randint(0, 5)})", "wallet": f"Wallet({r.randint(0, 50)})", "inv": "Inventory(20)", "tally": "Tally()"}
             use = {"pack": "{pack.put(1)} {len(pack.things)} {pack.owner}", "card": "{card.up()} {card.rank}",
                    "coin": "{coin.twice()} {coin.face}", "sealed": "{sealed.bump()} {sealed.tag}",
-                   "wallet": "{wallet.spend(3)} {wallet.gold}", "inv": "{inv.add({'name': 'Rope', 'weight': 1})} {inv.current_weight}"}
+                   "wallet": "{wallet.spend(3)} {wallet.gold}", "inv": "{inv.add({'name': 'Rope', 'weight': 1})} {inv.current_weight}", "tally": "{tally()} {tally.count}"}
             kinds = r.sample(sorted(mk), r.randint(2, 5))
             holder = r.choice(["", "list", "attr"])
-            lines = [f"from {modname} import Pack, Card, Coin, Sealed", "from bardic.stdlib.economy import Wallet",
+            lines = [f"from {modname} import Pack, Card, Coin, Sealed, Tally", "from bardic.stdlib.economy import Wallet",
                      "from bardic.stdlib.inventory import Inventory", "", ":: Start"]
             lines += [f"~ {kd} = {mk[kd]}" for kd in kinds]
             if holder == "list":
